@@ -128,10 +128,10 @@ def facts_for_current_tree(repo=None, use_cache=True):
             raise CheckError('exporter produced no facts for crates: %s' % ', '.join(missing))
         open(marker, 'w').write(json.dumps({'t': time.time()}))
         info['export_s'] = round(time.time() - t0, 1)
-        # keep the four most recent fact sets
+        # keep the ten most recent fact sets
         base = os.path.join(CACHE, 'facts')
         ds = sorted((os.path.getmtime(os.path.join(base, d)), d) for d in os.listdir(base))
-        for _, d in ds[:-4]:
+        for _, d in ds[:-10]:
             shutil.rmtree(os.path.join(base, d), ignore_errors=True)
         return out_dir, info
     finally:
